@@ -9,11 +9,10 @@ import (
 	"github.com/WuKongIM/WuKongIM/pkg/verifkit"
 )
 
-// The random body of the typed family steers around two input shapes (see
-// c07Typed.Quirks): an empty payload and a suffix truncation below the
-// persisted LEO floor. Both are legal inputs of the typed ChannelLog API and
-// inside the statement's quantifier, so they are exercised here, in isolation,
-// with their own signatures, instead of ending most random histories early.
+// Two input shapes of the typed ChannelLog API - an empty payload and a suffix
+// truncation below the persisted LEO floor - once broke the property (both
+// fixed in /repo since). They are exercised here in isolation with their own
+// stable signatures, in addition to the random body.
 
 // c07ProbeTypedEmptyPayload appends a batch containing an empty payload
 // through the typed API and then reads the channel back.
